@@ -132,14 +132,14 @@ let graph_ops = [| "add_node"; "try_add_node"; "add_edge"; "try_add_edge"; "upda
                    "remove_node"; "remove_edge"; "reverse"; "clear"; "clear_edges"; "retain_nodes"; "retain_edges";
                    "extend_with_edges"; "filter_map"; "into_edge_type"; "set_node_weight"; "set_edge_weight";
                    "node_weight"; "edge_weight"; "edge_endpoints"; "find_edge"; "find_edge_undirected";
-                   "edges_connecting"; "first_edge"; "next_edge"; "walker"; "map" |]
+                   "edges_connecting"; "first_edge"; "next_edge"; "walker"; "map"; "snapshot"; "clone_from" |]
 let pad_to (a : string array) (n : int) = Array.append a (Array.init (n - Array.length a) (fun i -> Printf.sprintf "_pad%d" i))
 let serde_tail = [| "ser"; "deser"; "xload"; "roundtrip"; "bytemut" |]
 let stable_ops = [| "add_node"; "try_add_node"; "add_edge"; "try_add_edge"; "update_edge"; "try_update_edge";
                     "remove_node"; "remove_edge"; "reverse"; "clear"; "clear_edges"; "retain_nodes"; "retain_edges";
                     "extend_with_edges"; "filter_map"; "map"; "set_node_weight"; "set_edge_weight";
                     "node_weight"; "edge_weight"; "edge_endpoints"; "find_edge"; "find_edge_undirected";
-                    "edges_connecting"; "contains_node"; "walker"; "to_graph"; "compact" |]
+                    "edges_connecting"; "contains_node"; "walker"; "to_graph"; "compact"; "snapshot"; "clone_from" |]
 
 let () =
   let prop = Sys.argv.(1) and infile = Sys.argv.(2) and outfile = Sys.argv.(3) in
@@ -147,8 +147,8 @@ let () =
   let oc = open_out outfile in
   (match prop with
    | "C19" -> C19.run_file lines oc
-   | "C01" -> run_generic graph_ops all_tags GraphIO.run_case lines oc
-   | "C02" -> run_generic stable_ops all_tags StableIO.run_case lines oc
+   | "C01" -> run_generic graph_ops all_tags CloneIO.run_case_g lines oc
+   | "C02" -> run_generic stable_ops all_tags CloneIO.run_case_s lines oc
    | "C08" | "C09" | "C10" | "C11" | "C12" | "C15" | "C16" | "C07" | "C20" -> run_generic view_ops all_tags AlgoIO.run_case lines oc
    | "C17g" -> run_generic (Array.append (pad_to graph_ops 40) serde_tail) all_tags SerdeIO.run_case_g lines oc
    | "C17s" -> run_generic (Array.append (pad_to stable_ops 40) serde_tail) all_tags SerdeIO.run_case_s lines oc
